@@ -990,6 +990,11 @@ func (e *SpecEnv) callPure(pf *PureFunc, args []SExpr, hint types.Type) Val {
 			as = append(as, e.f.ptrTerm(a))
 			continue
 		}
+		if a.T != nil && isString(a.T) {
+			// spec functions see the text of a string, not which buffer it is a view of
+			as = append(as, fmt.Sprintf("(mkstr (sarr %s) (soff %s) (slen %s) 0)", a.S, a.S, a.S))
+			continue
+		}
 		as = append(as, a.S)
 	}
 	if len(as) == 0 {
